@@ -11,7 +11,7 @@
    re-serialization of C02's quantifier, and envelopes built with the public crypto API. *)
 From Coq Require Import List NArith Bool.
 Import ListNotations.
-From VF Require Import C01.Model C01.Proofs C02.Model C02.Proofs.
+From VF Require Import common.Base64 C01.Model C01.Proofs C02.Model C02.Proofs C02.Text C02.TextProofs.
 Local Open Scope N_scope.
 
 (* FULL STATEMENT for the JWE authcrypt packer (payload and sender).  Whatever envelope the adversary presents:
@@ -206,6 +206,68 @@ Proof.
   split; [reflexivity|]. vm_compute. reflexivity.
 Qed.
 Print Assumptions sender_auth_asis_refuted.
+
+(* CHARACTER LEVEL (C02/Text.v: the model decodes the base64url members of the serialized envelope itself, with Go's
+   decoder semantics).  "every byte/bit position of every base64 field": for EVERY byte string, EVERY position of its
+   canonical base64url encoding and EVERY replacement character, the altered segment decodes to the SAME bytes exactly
+   in the characterised lenient case — the last symbol of a 2- or 3-symbol tail replaced by an alphabet symbol that
+   agrees on the used high bits; in every other case it is undecodable or decodes to other bytes. *)
+Theorem replace_classification : forall bs pre c post c',
+  Forall byte_ok bs -> encode_raw bs = pre ++ c :: post -> c' <> c ->
+  (decode_raw (pre ++ c' :: post) = Some bs <-> lenient_tail pre c post c').
+Proof. exact replace_classification_lemma. Qed.
+Print Assumptions replace_classification.
+
+(* an inserted character leaves the bytes unchanged exactly when it is one the decoder skips (CR, LF) ... *)
+Theorem insert_classification : forall bs pre post c',
+  Forall byte_ok bs -> encode_raw bs = pre ++ post ->
+  (decode_raw (pre ++ c' :: post) = Some bs <-> is_nl c' = true).
+Proof. exact insert_classification_lemma. Qed.
+Print Assumptions insert_classification.
+
+(* ... and a deleted character never does *)
+Theorem delete_classification : forall bs pre c post,
+  Forall byte_ok bs -> encode_raw bs = pre ++ c :: post -> decode_raw (pre ++ post) <> Some bs.
+Proof. exact delete_classification_lemma. Qed.
+Print Assumptions delete_classification.
+
+(* the same in terms of the very functions the correspondence evaluates on the real wires (apply_edit, classify):
+   the class is "same bytes" iff the edit is one of the two characterised lenient preimages *)
+Theorem alteration_classified : forall bs e pos,
+  Forall byte_ok bs -> real_edit e pos (encode_raw bs) ->
+  (classify false (encode_raw bs) (apply_edit e pos (encode_raw bs)) = CSame <-> lenient e pos (encode_raw bs)).
+Proof. exact alteration_classified_lemma. Qed.
+Print Assumptions alteration_classified.
+
+(* what the model makes of an altered member of an honest envelope is an envelope the integrity theorems above
+   speak about (its encrypted keys are honest ones or no key wraps) *)
+Theorem altered_covered : forall adv hs h j m old e pos jn,
+  In h hs -> hpack h = Ok (WJwe j) ->
+  match altered_jwe m old e pos jn (WJwe j) with WJwe E => wf_jwe adv hs E | _ => True end.
+Proof. intros adv hs h j m old e pos jn. exact (altered_covered_lemma adv hs h j m old e pos jn). Qed.
+Print Assumptions altered_covered.
+
+(* a strict decoder would have no such preimages; Go's is not strict: REFUTED that every replacement changes the
+   bytes or fails ("QQ" / "QR", and "QUI" / "QUJ") *)
+Theorem every_replacement_detected_refuted :
+  exists bs pre c post c', Forall byte_ok bs /\ encode_raw bs = pre ++ c :: post /\ c' <> c /\ decode_raw (pre ++ c' :: post) = Some bs.
+Proof.
+  exists [65], [81], 81, [], 82. split; [repeat constructor|]. split; [reflexivity|]. split; [discriminate|reflexivity].
+Qed.
+Print Assumptions every_replacement_detected_refuted.
+
+Example alteration_nonvacuous :
+  let old := encode_raw [1; 2; 3; 4; 5] in
+  classify false old (apply_edit (EReplace 66) 0 old) = CChanged /\
+  classify false old (apply_edit (EReplace 10) 3 old) = CChanged /\
+  classify false old (apply_edit (EInsert 10) 3 old) = CSame /\
+  classify false old (apply_edit EDelete 6 old) = CChanged /\
+  classify false old (apply_edit (EReplace 86) 6 old) = CSame /\
+  classify false old (apply_edit (EReplace 61) 2 old) = CBad /\
+  classify true (encode_pad [1; 2; 3; 4; 5]) (apply_edit (EReplace 65) 7 (encode_pad [1; 2; 3; 4; 5])) = CChanged /\
+  canonical true (encode_pad [1; 2; 3; 4]) = true /\
+  canonical false (encode_raw [7]) = true.
+Proof. vm_compute. repeat split. Qed.
 
 (* non-vacuity: adversarial envelopes that satisfy the hypotheses and ARE accepted / rejected as the theorems say:
    (1) the honest envelope with its recipients rotated and one entry's key replaced by junk: accepted, honest triple;
